@@ -2,10 +2,11 @@
    harness/translate/py2coq.py (coq/Gen/Py_STARFusionParser.v, Py_ArribaParser.v, Py_FusionCatcherParser.v), with
    Fusion.convert <tool>: in particular the ORDER of the look-ups, which decides the escaping exception.
    docs/py2coq.md. *)
-From Coq Require Import ZArith List Bool Lia.
+From Coq Require Import ZArith List Bool Lia ZifyBool.
 From MoPep Require Import Model.Base Model.PyRt Model.Rmats Model.Fusion
                           Gen.Py_STARFusionParser Gen.Py_ArribaParser Gen.Py_FusionCatcherParser
-                          Gen.Py_parse_star_fusion Gen.Py_parse_fusion_catcher Gen.Py_parse_arriba.
+                          Gen.Py_parse_star_fusion Gen.Py_parse_fusion_catcher Gen.Py_parse_arriba
+                          Gen.Py_TranscriptAnnotationModel_fusion.
 Import ListNotations.
 Open Scope Z_scope.
 
@@ -170,4 +171,64 @@ Proof.
       try destruct (o_skip_failed o); cli_step IH. }
   unfold py_arriba_cli, cli. cbv zeta. rewrite <- LOOP.
   destruct (py_arriba_cli_loop1 genes chroms o rows0 rows0 tally0 []) as [[t a]|x]; reflexivity.
+Qed.
+
+(* ------------------------------------------------------------------ get_upstream_exon_end / get_downstream_exon_start
+   (None = the function's ValueError or the UnboundLocalError of `ind`).  Hypothesis: exon coordinates are
+   non-negative and exons non-empty -- the code uses -1 as "not found", the model an option. *)
+Definition exons_nonneg (ex : list exon) : Prop := Forall (fun x : exon => 0 <= fst x < snd x) ex.
+
+Lemma code_upstream_exon_end_is_model_l : forall strand ex pos, exons_nonneg ex ->
+  py_upstream_exon_end strand ex pos = upstream_exon_end strand ex pos.
+Proof.
+  intros strand ex pos H.
+  assert (L1 : forall (l : list exon) ind,
+    py_upstream_exon_end_loop1 strand ex pos l ind = Continue (upstream_end_plus l pos ind)).
+  { induction l as [|x t IH]; intro ind; [reflexivity|]. cbn [py_upstream_exon_end_loop1 upstream_end_plus]. cbv zeta.
+    destruct (snd x >? pos); [reflexivity | apply IH]. }
+  assert (L2 : forall (l : list exon) ind,
+    py_upstream_exon_end_loop2 strand ex pos l ind = Continue (upstream_end_minus l pos ind)).
+  { induction l as [|x t IH]; intro ind; [reflexivity|]. cbn [py_upstream_exon_end_loop2 upstream_end_minus]. cbv zeta.
+    destruct (fst x <? pos); [reflexivity | apply IH]. }
+  assert (P1 : forall (l : list exon) ind w, Forall (fun x : exon => 0 <= fst x < snd x) l ->
+    (forall v, ind = Some v -> 0 <= v) -> upstream_end_plus l pos ind = Some w -> 0 <= w).
+  { induction l as [|x t IH]; intros ind w F I E; cbn [upstream_end_plus] in E; [apply I; exact E|].
+    inversion F; subst. destruct (snd x >? pos); [apply I; exact E|].
+    eapply IH; [eassumption | | exact E]. intros v Hv. inversion Hv; subst. lia. }
+  assert (P2 : forall (l : list exon) ind w, Forall (fun x : exon => 0 <= fst x < snd x) l ->
+    (forall v, ind = Some v -> 0 <= v) -> upstream_end_minus l pos ind = Some w -> 0 <= w).
+  { induction l as [|x t IH]; intros ind w F I E; cbn [upstream_end_minus] in E; [apply I; exact E|].
+    inversion F; subst. destruct (fst x <? pos); [apply I; exact E|].
+    eapply IH; [eassumption | | exact E]. intros v Hv. inversion Hv; subst. lia. }
+  unfold py_upstream_exon_end, upstream_exon_end. cbv zeta.
+  destruct (strand =? 1).
+  - rewrite L1. destruct (upstream_end_plus ex pos None) as [w|] eqn:E; [|reflexivity].
+    pose proof (P1 ex None w H ltac:(intros; discriminate) E). replace (w =? -1) with false by lia. reflexivity.
+  - rewrite L2. destruct (upstream_end_minus (rev ex) pos None) as [w|] eqn:E; [|reflexivity].
+    pose proof (P2 (rev ex) None w (Forall_rev H) ltac:(intros; discriminate) E).
+    replace (w =? -1) with false by lia. reflexivity.
+Qed.
+
+Lemma code_downstream_exon_start_is_model_l : forall strand ex pos, exons_nonneg ex ->
+  py_downstream_exon_start strand ex pos = downstream_exon_start strand ex pos.
+Proof.
+  intros strand ex pos H.
+  assert (L1 : forall (l : list exon), Forall (fun x : exon => 0 <= fst x < snd x) l ->
+    match py_downstream_exon_start_loop1 strand ex pos l (-1) with Done r => r | Continue i => if i =? -1 then None else Some i end
+    = downstream_start_plus l pos).
+  { induction l as [|x t IH]; intro F; [reflexivity|]. inversion F; subst.
+    cbn [py_downstream_exon_start_loop1 downstream_start_plus]. cbv zeta.
+    destruct (fst x >=? pos); [replace (fst x =? -1) with false by lia; reflexivity | apply IH; assumption]. }
+  assert (L2 : forall (l : list exon), Forall (fun x : exon => 0 <= fst x < snd x) l ->
+    match py_downstream_exon_start_loop2 strand ex pos l (-1) with Done r => r | Continue i => if i =? -1 then None else Some i end
+    = downstream_start_minus l pos).
+  { induction l as [|x t IH]; intro F; [reflexivity|]. inversion F; subst.
+    cbn [py_downstream_exon_start_loop2 downstream_start_minus]. cbv zeta.
+    destruct (snd x - 1 <=? pos); [replace (snd x - 1 =? -1) with false by lia; reflexivity | apply IH; assumption]. }
+  unfold py_downstream_exon_start, downstream_exon_start. cbv zeta.
+  destruct (strand =? 1).
+  - rewrite <- (L1 ex H). destruct (py_downstream_exon_start_loop1 strand ex pos ex (-1)); [|reflexivity].
+    destruct (s =? -1); reflexivity.
+  - rewrite <- (L2 (rev ex) (Forall_rev H)). destruct (py_downstream_exon_start_loop2 strand ex pos (rev ex) (-1)); [|reflexivity].
+    destruct (s =? -1); reflexivity.
 Qed.
